@@ -279,6 +279,11 @@ func TestVerifC14Hash(t *testing.T) {
 			c14qNilCombos(t, r)
 			return
 		}
+		var cc c14cCase
+		if err := r.ReplayCase(&cc); err == nil && cc.Part == "canon" {
+			c14cReplay(t, r, cc)
+			return
+		}
 		if err := r.ReplayCase(&c); err != nil || c.Part == "" {
 			fmt.Println("replay: not a qbft decide/compare case")
 			return
@@ -435,6 +440,9 @@ func TestVerifC14Hash(t *testing.T) {
 			e.check(c14qCase{Part: "decide", Duty: int(u.duty), Data: base64.StdEncoding.EncodeToString(mutated), Unit: u.name, Mutation: kind, Where: path}, "decide:"+kind+":"+u.name)
 		})
 	}
+
+	// ---- the hash of a value on the receiving side, for every encoding a conforming sender may produce (zz_verif_c14canon_test.go) --
+	c14qCanon(t, r)
 
 	// ---- every optional / nested field of the wire message absent, up to two at a time (zz_verif_c14nil_test.go) --
 	c14qNilCombos(t, r)
